@@ -278,3 +278,68 @@ FACETS = [
     Facet('torch/diagonalize-state', f_diag_state, strategy=lambda t: st_diag_state(4, 'torch'), examples={'quick': 150, 'thorough': 6000}, backend='torch'),
     Facet('torch/kernels', f_kernels, strategy=lambda t: st_kernels('torch', 6), examples={'quick': 300, 'thorough': 10000}, backend='torch'),
 ]
+
+
+def f_state_history(case):
+    """one pure state object: diagonalize / to_map, evolve it in place (rotations, masked and unmasked maps), diagonalize again: the circuit
+    must always belong to the *current* state."""
+    be, N = case['be'], case['N']
+    Bk = B.backend(be)
+    cm, sm = Bk.mods()['c'], Bk.mods()['s']
+    S, c = C.dec_state(be, {'rows': case['rows'], 'r': 0})
+    L, K = B.tableau_rows(c)
+    nd = 0
+    zero = ref.RefGroup(ref.RefClifford.identity(N).L[1::2], np.zeros(N, dtype=np.int64))
+    for i, stp in enumerate(case['steps']):
+        t = stp['t']
+        if t == 'diagonalize':
+            circ = cm.diagonalize(S)
+            T = S.copy()
+            circ.forward(T)
+            G, r = _group(be, T)
+            nd += 1
+            check(r == 0 and G.canonical() == zero.canonical(), 'step %d: diagonalize(state).forward(state) gives stabilizers %s, not |0..0> (history %s)' % (
+                i, G.canonical(), [x['t'] for x in case['steps'][:i]]), 'history-diag')
+            Z = sm.zero_state(N)
+            circ.backward(Z)
+            G2, r2 = _group(be, Z)
+            check(G2.canonical() == ref.RefGroup(L[:N], K[:N]).canonical(), 'step %d: backward(zero_state) does not re-encode the current state' % i, 'history-encode')
+        elif t == 'to_map':
+            C.expect_list(Bk.read_list(S.to_map()), (np.concatenate([L[N:], L[:N]])[np.argsort(np.r_[np.arange(0, 2 * N, 2), np.arange(1, 2 * N, 2)])],
+                                                  np.concatenate([K[N:], K[:N]])[np.argsort(np.r_[np.arange(0, 2 * N, 2), np.arange(1, 2 * N, 2)])]),
+                          'step %d: to_map() of the current state' % i, 'history-to_map')
+        elif t == 'rotate':
+            q = stp['qubits']
+            gl, gk = ref.parse(stp['gen'])
+            if len(q) == N and not stp['usemask']:
+                S.rotate_by(Bk.pauli(gl, gk))
+            else:
+                S.rotate_by(Bk.pauli(gl, gk), Bk.mask(q, N))
+            L, K = ref.rotate_rule(L, K, ref.embed_letters(gl, q, N), gk)
+        elif t == 'transform':
+            q = stp['qubits']
+            small = C.dec_clifford(stp['rows'])
+            if len(q) == N and not stp['usemask']:
+                S.transform_by(Bk.cmap(small))
+            else:
+                S.transform_by(Bk.cmap(small), Bk.mask(q, N))
+            L, K = small.embed(q, N).apply(L, K)
+    ts = [x['t'] for x in case['steps']]
+    dq = [i for i, x in enumerate(ts) if x in ('diagonalize', 'to_map')]
+    return {'nt': len(dq) >= 2 and any(x in ('rotate', 'transform') for x in ts[dq[0]:dq[-1]]), 'labels': ['N=%d' % N, 'diagonalizations=%d' % min(nd, 4)]}
+
+
+def st_state_history(be, hiN):
+    def inner(N):
+        sub = st.integers(1, N).flatmap(lambda n: st.tuples(gen.st_subset(N, n), st.just(n)))
+        query = st.sampled_from([{'t': 'diagonalize'}, {'t': 'diagonalize'}, {'t': 'to_map'}])
+        evo = st.one_of(
+            sub.flatmap(lambda t: st.fixed_dictionaries({'t': st.just('transform'), 'qubits': st.just(t[0]), 'rows': gen.st_clifford_rows(t[1]), 'usemask': st.booleans()})),
+            sub.flatmap(lambda t: st.fixed_dictionaries({'t': st.just('rotate'), 'qubits': st.just(t[0]), 'gen': gen.st_herm(t[1], nonidentity=True), 'usemask': st.booleans()})))
+        mid = st.lists(st.one_of(evo, evo, query), min_size=1, max_size=5)
+        return st.fixed_dictionaries({'be': st.just(be), 'N': st.just(N), 'rows': gen.st_clifford_rows(N), 'steps': st.tuples(query, mid, st.just({'t': 'diagonalize'})).map(lambda t: [t[0]] + t[1] + [t[2]])})
+    return st.integers(1, hiN).flatmap(inner)
+
+
+FACETS.append(Facet('np/state-histories', f_state_history, strategy=lambda t: st_state_history('np', 4), examples={'quick': 500, 'thorough': 20000}, shards={'quick': 1, 'thorough': 4}))
+FACETS.append(Facet('torch/state-histories', f_state_history, strategy=lambda t: st_state_history('torch', 3), examples={'quick': 120, 'thorough': 4000}, backend='torch'))
